@@ -692,6 +692,12 @@ func (sf *SnowflakeProxy) checkNATType(config webrtc.Configuration, probeURL str
 		log.Printf("error making WebRTC connection: %s", err)
 		return
 	}
+	// every return below, not only the last one, must release the connection
+	defer func() {
+		if err := pc.Close(); err != nil {
+			log.Printf("error calling pc.Close: %v", err)
+		}
+	}()
 
 	offer := pc.LocalDescription()
 	sdp, err := util.SerializeSessionDescription(offer)
@@ -756,9 +762,4 @@ func (sf *SnowflakeProxy) checkNATType(config webrtc.Configuration, probeURL str
 	currentNATTypeAccess.Lock()
 	currentNATType = currentNATTypeToStore
 	currentNATTypeAccess.Unlock()
-
-	if err := pc.Close(); err != nil {
-		log.Printf("error calling pc.Close: %v", err)
-	}
-
 }
